@@ -54,6 +54,7 @@ type BoundContract struct {
 	LoopSplit   map[int][]ast.Expr
 	Appends     [][2]ast.Expr
 	AppendsAll  [][2]ast.Expr
+	MapOps      [][]ast.Expr
 	Copies      [][3]ast.Expr
 	CallsOnly   []string
 	Split       []ast.Expr
@@ -743,6 +744,8 @@ func (env *specEnv) callExpr(x *ast.CallExpr) Val {
 		case "held":
 			a := env.identity(x.Args[0])
 			return u.readCell(env.st, "bool", c.Fld(a, fGhostHeld))
+		case "mapAt":
+			return u.load(env.st, env.mapCell(x.Args[0], x.Args[1]), types.NewInterfaceType(nil, nil))
 		case "isFresh":
 			// the object was allocated during this call (decided syntactically on the address term)
 			var a *Term
@@ -931,6 +934,12 @@ func (env *specEnv) region(items []ast.Expr, all bool) *Region {
 					cell := c.Fld(idt, fGhostHeld)
 					r.setRoot(cell); r.add("bool", func(a *Term) *Term { return c.Eq(a, cell) })
 					continue
+				case "mapAt":
+					r.addCell(u, env.mapCell(call.Args[0], call.Args[1]), types.NewInterfaceType(nil, nil))
+					continue
+				case "mapAll":
+					r.addElems(u, c.Fld(env.identity(call.Args[0]), fGhostMap), nil, nil, types.NewInterfaceType(nil, nil))
+					continue
 				case "misc":
 					idt := env.identity(call.Args[0])
 					cell := c.Fld(idt, fGhostMisc)
@@ -1057,4 +1066,51 @@ func (env *specEnv) tryEval(e ast.Expr) (v Val) {
 		return env.eval(x)
 	}
 	return nil
+}
+
+// mapCell: the ghost cell of map-like object m (sync.Map, Go map) for the given key.
+// Keys are abstracted to 64-bit values: integers by value, pointers and strings through uninterpreted
+// functions of the pointer / string header (equal headers are equal keys; nothing is assumed about
+// distinct headers with equal contents).
+func (env *specEnv) mapCell(m, key ast.Expr) *Term {
+	u := env.u
+	c := u.C
+	id := env.identity(m)
+	return c.Idx(c.Fld(id, fGhostMap), u.keyTerm(env.st, env.eval(key), env.typeOf(key)))
+}
+
+func (u *Unit) keyTerm(st *State, v Val, t types.Type) *Term {
+	c := u.C
+	switch x := v.(type) {
+	case *IfaceV:
+		if _, isI := t.Underlying().(*types.Interface); isI {
+			if x.Tag.IsConst() {
+				if dt, ok := u.E.typeByID[int(x.Tag.V.Int64())]; ok {
+					switch dt.Underlying().(type) {
+					case *types.Pointer:
+						return u.keyTerm(st, x.Ptr, dt)
+					}
+					return u.keyTerm(st, u.load(st, x.Ptr, dt), dt)
+				}
+			}
+			n := c.DeclareUF("ifaceKey", []Sort{BV(32), SAddr}, BV(64))
+			return c.App(n, BV(64), x.Tag, x.Ptr)
+		}
+	case *SliceV:
+		n := c.DeclareUF("strKey", []Sort{SAddr, BV(64), BV(64)}, BV(64))
+		return c.App(n, BV(64), x.Base, x.Off, x.Len)
+	case *Term:
+		if w, signed, ok := intWidth(t); ok {
+			if signed {
+				return c.SExt(x, 64)
+			}
+			_ = w
+			return c.ZExt(x, 64)
+		}
+		if x.S.K == KAddr {
+			n := c.DeclareUF("addrKey", []Sort{SAddr}, BV(64))
+			return c.App(n, BV(64), x)
+		}
+	}
+	panic(fmt.Sprintf("unsupported map key %T of type %s", v, t))
 }
